@@ -184,8 +184,15 @@ def scalar_data(rng, n, kind=None):
 
 def euler_prim(rng, n, kind=None, mach_max=2.5, ratio=10.0):
     """primitive Euler data (rho, u, p) of n cells"""
-    kind = kind or str(rng.choice(["random", "step", "smooth", "uniform", "stream", "acoustic"]))
+    kind = kind or str(rng.choice(["random", "step", "smooth", "uniform", "stream", "acoustic", "stream-with-exceptions"]))
     r0, p0 = 10 ** rng.uniform(-1, 1), 10 ** rng.uniform(-1, 1)
+    if kind == "stream-with-exceptions":
+        # a one-directional (mostly supersonic) stream in which ONE or TWO cells are different: subsonic, at rest or reversed --
+        # placed anywhere, in particular in the first or last cell (a whole-array test "all faces upwind" is almost true)
+        (rho, u, p), _ = euler_prim(rng, n, "stream", mach_max=mach_max, ratio=ratio)
+        for j in set([int(rng.choice([0, n - 1, int(rng.integers(n))]))] + ([int(rng.integers(n))] if rng.random() < 0.4 else [])):
+            u[j] = u[j] * float(rng.choice([0.7, 0.6, 0.5, 0.0, -0.6, 0.3]))
+        return [np.asarray(rho, float), np.asarray(u, float), np.asarray(p, float)], kind
     if kind == "acoustic":
         # nearly at rest: velocities of 1e-14...1e-4 sound speeds and equally small density/pressure disturbances (linear acoustics)
         eps = float(10 ** rng.uniform(-14, -4))
@@ -222,8 +229,13 @@ def euler_prim(rng, n, kind=None, mach_max=2.5, ratio=10.0):
 
 
 def sw_prim(rng, n, kind=None, froude_max=2.5, ratio=10.0, g=9.81):
-    kind = kind or str(rng.choice(["random", "step", "smooth", "stream"]))
+    kind = kind or str(rng.choice(["random", "step", "smooth", "stream", "stream-with-exceptions"]))
     h0 = 10 ** rng.uniform(-1, 1)
+    if kind == "stream-with-exceptions":
+        (h, u), _ = sw_prim(rng, n, "stream", froude_max=froude_max, ratio=ratio, g=g)
+        for j in set([int(rng.choice([0, n - 1, int(rng.integers(n))]))] + ([int(rng.integers(n))] if rng.random() < 0.4 else [])):
+            u[j] = u[j] * float(rng.choice([0.7, 0.6, 0.5, 0.0, -0.6, 0.3]))
+        return [np.asarray(h, float), np.asarray(u, float)], kind
     if kind == "stream":
         x = (np.arange(n) + 0.5) / n
         h = smooth(rng, x, 1.0, h0, h0 * 1.1)
@@ -381,7 +393,7 @@ def _make_model(mname, rng, source=None, gamma=None, g=None, a=None, section=Non
 
 
 def prim_for(mname, model, rng, n, dkind=None, mach_max=2.0, ratio=10.0):
-    if mname in ("convection", "burgers") and dkind == "stream":
+    if mname in ("convection", "burgers") and dkind in ("stream", "stream-with-exceptions"):
         dkind = "smooth"
     if mname in ("convection",):
         q, k = scalar_data(rng, n, dkind)
@@ -392,8 +404,8 @@ def prim_for(mname, model, rng, n, dkind=None, mach_max=2.0, ratio=10.0):
             q = q + 0.5
         return [q], k
     if mname == "shallowwater":
-        return sw_prim(rng, n, dkind if dkind in ("random", "step", "smooth", "stream") else None, froude_max=mach_max, ratio=ratio, g=model.g)
-    return euler_prim(rng, n, dkind if dkind in ("random", "step", "smooth", "uniform", "stream", "acoustic") else None, mach_max=mach_max, ratio=ratio)
+        return sw_prim(rng, n, dkind if dkind in ("random", "step", "smooth", "stream", "stream-with-exceptions") else None, froude_max=mach_max, ratio=ratio, g=model.g)
+    return euler_prim(rng, n, dkind if dkind in ("random", "step", "smooth", "uniform", "stream", "acoustic", "stream-with-exceptions") else None, mach_max=mach_max, ratio=ratio)
 
 
 def open_bc(mname, model, rng, prim, side):
